@@ -45,7 +45,12 @@ pub(super) fn existing_log_files(
                 file_spec.get_suffix().as_deref(),
             ));
         }
-        if let Some(ref custom_current) = selector.with_configured_current {
+        if let Some(ref custom_current) = selector
+            .with_configured_current
+            .as_ref()
+            // (not a second time, if it is the rCURRENT file that is listed already)
+            .filter(|cc| !(selector.with_r_current && cc.as_str() == super::CURRENT_INFIX))
+        {
             result.append(&mut file_spec.filter_files(
                 &related_files,
                 &InfixFilter::Equls(custom_current.to_string()),
